@@ -57,11 +57,16 @@ def oracle_c20(r, an, info, rng):
             rel("cf_rad=angle(Hxy)", r.cf_rad, np.angle(r.Hxy), rtol=1e-13, atol=1e-15)
         # interpolation
         f = np.asarray(r.f, float)
-        names = (["Gxx", "L", "K", "navg", "ENBW"] + (["Gxy", "Hxy", "coh"] if r.iscsd else ["asd", "psd"]))
+        names = (["Gxx", "L", "K", "navg", "ENBW"] + (["Gxy", "Hxy", "coh", "cf_rad", "cf_deg", "cf", "cf_rad_unwrapped"] if r.iscsd else ["asd", "psd"]))
         for nm in names:
             tab = np.asarray(getattr(r, nm))
             if len(f) >= 2 and np.all(np.diff(f) > 0):
                 j = rng.randrange(len(f) - 1); t = rng.choice([0.25, 0.5, 0.9])
+                if nm in ("cf_rad", "cf_deg") and np.all(np.isfinite(tab)):
+                    # tabulated wrapped phases are interpolated as tabulated (linearly), also across an interval where the phase wraps
+                    wraps = np.nonzero(np.abs(np.diff(tab)) > (np.pi if nm == "cf_rad" else 180.0))[0]
+                    if len(wraps):
+                        j = int(wraps[rng.randrange(len(wraps))])
                 q = [f[j], f[j] + t * (f[j + 1] - f[j]), f[0] - 1.0, f[-1] + 1.0]
                 exp = [tab[j], tab[j] + (tab[j + 1] - tab[j]) * ((q[1] - f[j]) / (f[j + 1] - f[j])), tab[0], tab[-1]]
                 got = [r.get_measurement(float(x), nm) for x in q]
@@ -118,6 +123,12 @@ def oracle_c20(r, an, info, rng):
                 r2 = fn(r)
             except Exception as e:
                 out.append((lab + ":exc", "%s raised %s: %s" % (lab, type(e).__name__, str(e)[:80]))); continue
+            # the clone is a complete result: size, text form and scalar fields as the original
+            try:
+                if len(r2) != len(r) or int(r2.nf) != int(r.nf) or repr(r2) != repr(r) or r2.iscsd != r.iscsd or float(r2.fs) != float(r.fs):
+                    out.append((lab + ":scalars", "%s: len/nf/repr/iscsd/fs of the clone differ from the original" % lab)); continue
+            except Exception as e:
+                out.append((lab + ":scalars", "%s: len()/nf/repr() of the clone raise %s: %s" % (lab, type(e).__name__, str(e)[:80]))); continue
             for nm in ["f", "XX", "XY", "Gxx", "ENBW", "L", "navg"] + (["coh", "Hxy", "psd"] if r.iscsd else ["asd", "psd", "coh"]):
                 a, b = getattr(r, nm), getattr(r2, nm)
                 if (a is None) != (b is None) or (a is not None and not np.array_equal(np.asarray(a), np.asarray(b), equal_nan=True)):
